@@ -75,7 +75,28 @@ type gType struct {
 	HasDefault bool
 	CtorErr    bool // constructor can fail (s == FAILCTOR)
 	FacErr     bool // registered factory can fail (s == FAILFAC)
+	// Strict: the config type is StrictConf, whose validate rules the registered default (the zero config when
+	// there is none) does NOT satisfy: the user has to override `s` and / or `n` (cf. the guns' required `target`).
+	Strict bool
+	Def    Conf // what the registered default-config function returns (Strict types; the others return gDefault)
 }
+
+// StrictConf is Conf with rules a default does not pass by itself (struct tags aside the types are identical, so
+// a *StrictConf converts to *Conf).
+type StrictConf struct {
+	S string            `config:"s" validate:"required"`
+	N int               `config:"n" validate:"min=1,max=1000000"`
+	L []string          `config:"l"`
+	M map[string]string `config:"m"`
+}
+
+// strictValid is the model of StrictConf's rules for the values the generator produces.
+func strictValid(c Conf) bool { return c.S != "" && c.N >= 1 && c.N <= 1000000 }
+
+var (
+	gDefNeedsS = Conf{N: 7}      // no default for the required `s`
+	gDefNeedsN = Conf{S: "dflt"} // `n` must be >= 1
+)
 
 var gTypes = []gType{
 	{Name: "c18/component-struct-default", Kind: "component", HasConf: true, HasDefault: true},
@@ -85,7 +106,18 @@ var gTypes = []gType{
 	{Name: "c18/factory-ptr-default-err", Kind: "factory", HasConf: true, HasDefault: true, CtorErr: true, FacErr: true},
 	{Name: "c18/factory-struct-nodefault", Kind: "factory", HasConf: true},
 	{Name: "c18/component-ptr-nodefault", Kind: "component", HasConf: true},
+	// every constructor shape again, with defaults that need overriding (index 7 and up)
+	{Name: "c18/strict-component-struct-default", Kind: "component", HasConf: true, HasDefault: true, Strict: true, Def: gDefNeedsS},
+	{Name: "c18/strict-component-ptr-default-err", Kind: "component", HasConf: true, HasDefault: true, CtorErr: true, Strict: true, Def: gDefNeedsN},
+	{Name: "c18/strict-component-struct-nodefault-err", Kind: "component", HasConf: true, CtorErr: true, Strict: true},
+	{Name: "c18/strict-component-ptr-nodefault", Kind: "component", HasConf: true, Strict: true},
+	{Name: "c18/strict-factory-ptr-default-err", Kind: "factory", HasConf: true, HasDefault: true, CtorErr: true, FacErr: true, Strict: true, Def: gDefNeedsS},
+	{Name: "c18/strict-factory-struct-default", Kind: "factory", HasConf: true, HasDefault: true, Strict: true, Def: gDefNeedsN},
+	{Name: "c18/strict-factory-struct-nodefault", Kind: "factory", HasConf: true, Strict: true},
+	{Name: "c18/strict-factory-ptr-nodefault-err", Kind: "factory", HasConf: true, CtorErr: true, FacErr: true, Strict: true},
 }
+
+const gFirstStrict = 7
 
 var gOnce sync.Once
 
@@ -147,6 +179,91 @@ func gRegister() {
 			}
 			return gImpl(gTypes[6].Name, c)
 		})
+		gRegisterStrict()
+	})
+}
+
+// gRegisterStrict registers gTypes[gFirstStrict:]: the constructor shapes {component, factory} x {struct, pointer
+// config} x {default-config function or none} x {with / without error results}, all on StrictConf.
+func gRegisterStrict() {
+	var ptr *Comp
+	for i := gFirstStrict; i < len(gTypes); i++ {
+		if !gTypes[i].Strict || !gTypes[i].HasConf {
+			panic("c18 harness: gTypes order changed")
+		}
+	}
+	t := func(k int) gType { return gTypes[gFirstStrict+k] }
+	defStruct := func(d Conf) func() StrictConf { return func() StrictConf { return StrictConf(d.clone()) } }
+	defPtr := func(d Conf) func() *StrictConf {
+		return func() *StrictConf { c := StrictConf(d.clone()); return &c }
+	}
+	facOf := func(ty gType, c *Conf) func() (Comp, error) {
+		return func() (Comp, error) {
+			g.mu.Lock()
+			g.facs++
+			g.mu.Unlock()
+			if ty.FacErr && c.S == gFailFac {
+				return nil, errGFac
+			}
+			own := c.clone()
+			return gImpl(ty.Name, &own), nil
+		}
+	}
+	// components
+	register.RegisterPtr(ptr, t(0).Name, func(sc StrictConf) Comp {
+		c := (*Conf)(&sc)
+		gCtor(t(0).Name, c)
+		return gImpl(t(0).Name, c)
+	}, defStruct(t(0).Def))
+	register.RegisterPtr(ptr, t(1).Name, func(sc *StrictConf) (Comp, error) {
+		c := (*Conf)(sc)
+		gCtor(t(1).Name, c)
+		if c.S == gFailCtor {
+			return nil, errGCtor
+		}
+		return gImpl(t(1).Name, c), nil
+	}, defPtr(t(1).Def))
+	register.RegisterPtr(ptr, t(2).Name, func(sc StrictConf) (*Impl, error) {
+		c := (*Conf)(&sc)
+		gCtor(t(2).Name, c)
+		if c.S == gFailCtor {
+			return nil, errGCtor
+		}
+		return gImpl(t(2).Name, c), nil
+	})
+	register.RegisterPtr(ptr, t(3).Name, func(sc *StrictConf) Wider {
+		c := (*Conf)(sc)
+		gCtor(t(3).Name, c)
+		return gImpl(t(3).Name, c)
+	})
+	// factories
+	register.RegisterPtr(ptr, t(4).Name, func(sc *StrictConf) (func() (Comp, error), error) {
+		c := (*Conf)(sc)
+		gCtor(t(4).Name, c)
+		if c.S == gFailCtor {
+			return nil, errGCtor
+		}
+		return facOf(t(4), c), nil
+	}, defPtr(t(4).Def))
+	register.RegisterPtr(ptr, t(5).Name, func(sc StrictConf) func() Comp {
+		c := (*Conf)(&sc)
+		gCtor(t(5).Name, c)
+		f := facOf(t(5), c)
+		return func() Comp { p, _ := f(); return p }
+	}, defStruct(t(5).Def))
+	register.RegisterPtr(ptr, t(6).Name, func(sc StrictConf) func() Comp {
+		c := (*Conf)(&sc)
+		gCtor(t(6).Name, c)
+		f := facOf(t(6), c)
+		return func() Comp { p, _ := f(); return p }
+	})
+	register.RegisterPtr(ptr, t(7).Name, func(sc *StrictConf) (func() (Comp, error), error) {
+		c := (*Conf)(sc)
+		gCtor(t(7).Name, c)
+		if c.S == gFailCtor {
+			return nil, errGCtor
+		}
+		return facOf(t(7), c), nil
 	})
 }
 
@@ -159,6 +276,9 @@ type ConfigCase struct {
 	YAMLKeys bool     `json:"yaml_keys"` // map[interface{}]interface{} as the YAML decoder produces
 	Products int      `json:"products"`
 	Mutate   []bool   `json:"mutate"` // product i scribbles over its config
+	// Section (Strict types): type_only = the plugin section holds nothing but the type key | overriding = it sets
+	// at least what the default lacks | "" = whatever Settings says
+	Section string `json:"section,omitempty"`
 }
 
 func genConfigCase(t *rapid.T) ConfigCase {
@@ -168,6 +288,22 @@ func genConfigCase(t *rapid.T) ConfigCase {
 	c.Field = rapid.SampledFrom([]string{"component", "factory_err", "factory_err", "factory_noerr", "factory_noerr"}).Draw(t, "field")
 	if ty.HasConf {
 		c.Settings = genSettings(t, "settings")
+	}
+	if ty.Strict {
+		// what the user wrote decides whether the registered default is good enough: nothing but the type, the
+		// options the default lacks (and maybe more), or any subset of the options
+		c.Section = rapid.SampledFrom([]string{"type_only", "overriding", "overriding", ""}).Draw(t, "section")
+		switch c.Section {
+		case "type_only":
+			c.Settings = Settings{}
+		case "overriding":
+			if !c.Settings.SetS {
+				c.Settings.SetS, c.Settings.S = true, word.Draw(t, "overrideS")+"!"
+			}
+			if !c.Settings.SetN {
+				c.Settings.SetN, c.Settings.N = true, rapid.IntRange(1, 200).Draw(t, "overrideN")
+			}
+		}
 	}
 	bads := []string{"", "", "", "", "unknown_key"}
 	if ty.HasConf {
@@ -179,12 +315,15 @@ func genConfigCase(t *rapid.T) ConfigCase {
 	if ty.FacErr {
 		bads = append(bads, "fac_fail", "fac_fail", "fac_fail")
 	}
+	if c.Section == "type_only" {
+		bads = []string{""} // nothing else in the section
+	}
 	c.Bad = rapid.SampledFrom(bads).Draw(t, "bad")
 	c.TypeKey = rapid.SampledFrom([]string{"type", "type", "type", "Type", "TYPE"}).Draw(t, "typeKey")
 	c.YAMLKeys = rapid.Bool().Draw(t, "yamlKeys")
 	c.Products = rapid.IntRange(1, 5).Draw(t, "products")
 	for i := 0; i < c.Products; i++ {
-		c.Mutate = append(c.Mutate, rapid.IntRange(0, 2).Draw(t, fmt.Sprintf("mutate%d", i)) == 2)
+		c.Mutate = append(c.Mutate, rapid.IntRange(0, 3).Draw(t, fmt.Sprintf("mutate%d", i)) >= 2)
 	}
 	return c
 }
@@ -241,9 +380,37 @@ func (c ConfigCase) expected() Conf {
 	exp := Conf{}
 	if ty.HasDefault {
 		exp = gDefault.clone()
+		if ty.Strict {
+			exp = ty.Def.clone()
+		}
 	}
 	c.Settings.apply(&exp)
 	return exp
+}
+
+// defaultInvalid: the registered default overlaid by the section does not pass the config's validate rules.
+func (c ConfigCase) defaultInvalid() bool {
+	ty := gTypes[c.Type]
+	if !ty.Strict {
+		return false
+	}
+	eff := c.expected()
+	if c.Bad == "ctor_fail" || c.Bad == "fac_fail" {
+		eff.S = gFailCtor // those set `s`
+	}
+	return !strictValid(eff)
+}
+
+func (c ConfigCase) badText() string {
+	if c.defaultInvalid() {
+		ty := gTypes[c.Type]
+		d := "no default-config function"
+		if ty.HasDefault {
+			d = fmt.Sprintf("registered default %+v", ty.Def)
+		}
+		return fmt.Sprintf("%s %s; %s, section sets %+v: breaks validate rules s required, n min=1", c.Bad, c.Section, d, c.Settings)
+	}
+	return c.Bad
 }
 
 func checkConfig(c ConfigCase, o *vf.Obs) error {
@@ -255,7 +422,11 @@ func checkConfig(c ConfigCase, o *vf.Obs) error {
 	gReset()
 	exp := c.expected()
 	// Is the failure the case plans expressible for this type? (replay files may carry anything)
-	failing := c.Bad != ""
+	defaultInvalid := c.defaultInvalid()
+	failing := c.Bad != "" || defaultInvalid
+	if c.Section == "type_only" && (c.Bad != "" || c.Settings.SetS || c.Settings.SetN || c.Settings.SetL || c.Settings.SetM) {
+		return fmt.Errorf("harness: a type-only section with settings: %+v", c)
+	}
 	if (c.Bad == "ctor_fail" && !ty.CtorErr) || (c.Bad == "fac_fail" && !ty.FacErr) || ((c.Bad == "wrong_type" || c.Bad == "validation") && !ty.HasConf) {
 		return fmt.Errorf("harness: fault %q cannot be expressed for %s", c.Bad, ty.Name)
 	}
@@ -299,6 +470,9 @@ func checkConfig(c ConfigCase, o *vf.Obs) error {
 	case "fac_fail":
 		wantErr = errGFac
 	}
+	if defaultInvalid {
+		wantErr = nil // the config error comes first: no constructor may run on a config that breaks its rules
+	}
 
 	if c.Field == "component" {
 		var dst struct {
@@ -313,7 +487,7 @@ func checkConfig(c ConfigCase, o *vf.Obs) error {
 		}
 		if failing {
 			if !surfaced {
-				return fmt.Errorf("Decode into a component field succeeded (component %v) although the plugin config is bad (%s)", dst.P, c.Bad)
+				return fmt.Errorf("Decode into a component field succeeded (component %v) although the plugin config is bad (%s)", dst.P, c.badText())
 			}
 			o.Class("config_error_at_decode")
 		} else {
@@ -375,7 +549,7 @@ func checkConfig(c ConfigCase, o *vf.Obs) error {
 					// the error must reach the caller: as the error result, or as a panic carrying it when there is none
 					if viaPanic {
 						if !po.panicked {
-							return fmt.Errorf("%s was delivered (%v) although the plugin config is bad (%s): error lost", what, po.val, c.Bad)
+							return fmt.Errorf("%s was delivered (%v) although the plugin config is bad (%s): error lost", what, po.val, c.badText())
 						}
 						pe, ok := po.panicVal.(error)
 						if !ok {
@@ -390,7 +564,7 @@ func checkConfig(c ConfigCase, o *vf.Obs) error {
 							return fmt.Errorf("%s panicked (%v) although the factory type has an error result\n%s", what, po.panicVal, po.stack)
 						}
 						if po.err == nil {
-							return fmt.Errorf("%s was delivered (%v) although the plugin config is bad (%s): error lost", what, po.val, c.Bad)
+							return fmt.Errorf("%s was delivered (%v) although the plugin config is bad (%s): error lost", what, po.val, c.badText())
 						}
 						if err := expectErr(what, po.err, wantErr); err != nil {
 							return err
@@ -448,6 +622,13 @@ func checkConfig(c ConfigCase, o *vf.Obs) error {
 	}
 	o.Class("type_"+strings.TrimPrefix(ty.Name, "c18/"), "field_"+c.Field)
 	o.ClassIf(c.Bad != "", "bad_"+c.Bad)
+	if defaultInvalid {
+		o.Class("default_config_invalid")
+		o.ClassIf(c.Section == "type_only", "default_invalid_type_only_section")
+		o.ClassIf(c.Section != "type_only", "default_invalid_partly_overridden")
+		o.Class("default_invalid_" + ty.Kind + "_" + c.Field)
+	}
+	o.ClassIf(ty.Strict && !failing, "default_invalid_overridden_by_section")
 	o.ClassIf(c.YAMLKeys, "yaml_style_keys")
 	o.ClassIf(atProductPanic, "config_error_as_panic_at_product")
 	o.ClassIf(atProductResult, "config_error_as_result_at_product")
